@@ -24,6 +24,7 @@ type Universe struct {
 	MsgHashes   map[string]bool // hex of the 32-byte message hash
 	MaxHeight   uint64
 	ObsFrom     uint64 // identifiers of blocks below ObsFrom are not recorded
+	HashNum     map[felt.Felt]uint64
 }
 
 func NewUniverse(g *lib.ChainGen) *Universe {
@@ -55,6 +56,10 @@ func (u *Universe) Add(b *lib.Bundle) {
 		return
 	}
 	u.BlockHashes[*b.Block.Hash] = true
+	if u.HashNum == nil {
+		u.HashNum = map[felt.Felt]uint64{}
+	}
+	u.HashNum[*b.Block.Hash] = b.Block.Number
 	if b.Block.Number > u.MaxHeight {
 		u.MaxHeight = b.Block.Number
 	}
@@ -299,6 +304,9 @@ func observe(bc *blockchain.Blockchain, u *Universe, stateBlocks []uint64, block
 	}
 	for _, h := range sortedFelts(u.BlockHashes) {
 		h := h
+		if n, ok := u.HashNum[h]; ok && u.ObsFrom > 0 && n < height {
+			continue // long chains: historical state only near the head (each legacy read copies the memory DB)
+		}
 		tag := fmt.Sprintf("StateAtBlockHash(%s)", &h)
 		if st, closer, err := bc.StateAtBlockHash(&h); err != nil {
 			o.put(tag, errClass(err))
